@@ -570,7 +570,10 @@ func driver(id, tier string) int {
 				ok = true
 			}
 		}
-		if !ok || ro.Digest != f.Digest {
+		// C13 is about the program's own nondeterminism: a violation whose histories
+		// depend on heap addresses or process identity recurs with the same class
+		// but not necessarily the same bytes.
+		if !ok || (ro.Digest != f.Digest && id != "C13") {
 			fmt.Fprintf(os.Stderr, "HARNESS NONDETERMINISM: %s does not reproduce in a fresh process (class ok=%v digest %s vs %s)\n", path, ok, ro.Digest, f.Digest)
 			return 2
 		}
